@@ -55,6 +55,49 @@ fn decode_outcome(bytes: &[u8], version: &str) -> (String, Option<tir::Tx>, Valu
     }
 }
 
+/// Offsets and header lengths of every byte string, text, array and map header of a CBOR item (nested ones
+/// included), found with the driver's own reader.
+fn headers(bytes: &[u8]) -> Vec<(usize, usize, u8)> {
+    fn walk(it: &crate::cbor::Item, bytes: &[u8], out: &mut Vec<(usize, usize, u8)>) {
+        use crate::cbor::Cbor;
+        let first = bytes[it.start];
+        let hlen = match first & 0x1f { 24 => 2, 25 => 3, 26 => 5, 27 => 9, _ => 1 };
+        match &it.v {
+            Cbor::Bytes(_, indef) => { if !indef { out.push((it.start, hlen, 2)); } }
+            Cbor::Text(_) => { if first & 0x1f != 31 { out.push((it.start, hlen, 3)); } }
+            Cbor::Array(a, indef) => {
+                if !indef { out.push((it.start, hlen, 4)); }
+                for x in a { walk(x, bytes, out); }
+            }
+            Cbor::Map(m, indef) => {
+                if !indef { out.push((it.start, hlen, 5)); }
+                for (k, v) in m { walk(k, bytes, out); walk(v, bytes, out); }
+            }
+            Cbor::Tag(_, inner) => walk(inner, bytes, out),
+            _ => {}
+        }
+    }
+    let mut out = vec![];
+    if let Ok(it) = crate::cbor::parse(bytes) {
+        walk(&it, bytes, &mut out);
+    }
+    out
+}
+
+/// the n-th header rewritten to its 8-byte form announcing `count` elements / bytes
+fn inflate(bytes: &[u8], nth: usize, count: u64) -> Vec<u8> {
+    let hs = headers(bytes);
+    if hs.is_empty() {
+        return bytes.to_vec();
+    }
+    let (start, hlen, major) = hs[nth % hs.len()];
+    let mut b = bytes[..start].to_vec();
+    b.push((major << 5) | 27);
+    b.extend(count.to_be_bytes());
+    b.extend(&bytes[start + hlen..]);
+    b
+}
+
 fn mutate(bytes: &[u8], m: &Value) -> Vec<u8> {
     let mut b = bytes.to_vec();
     match str_of(&m["kind"]) {
@@ -75,6 +118,7 @@ fn mutate(bytes: &[u8], m: &Value) -> Vec<u8> {
             b.splice(at..at + del, ins);
         }
         "raw" => b = bytes_from(&m["bytes"]),
+        "inflate" => b = inflate(bytes, m["nth"].as_u64().unwrap_or(0) as usize, m["count"].as_u64().unwrap_or(u64::MAX)),
         "nest" => {
             let depth = m["depth"].as_u64().unwrap_or(1000) as usize;
             let byte = m["byte"].as_u64().unwrap_or(0x81) as u8;
@@ -138,7 +182,16 @@ pub fn run(case: &Value) -> Value {
         }
         events.push(ev);
     }
-    for m in case["muts"].as_array().cloned().unwrap_or_default() {
+    let mut muts = case["muts"].as_array().cloned().unwrap_or_default();
+    if case["inflate_all"].as_bool().unwrap_or(false) {
+        // every header of the encoding, one at a time, announcing a length that is not there
+        for nth in 0..headers(&bytes).len() {
+            for count in [u64::MAX, 1u64 << 62, 1u64 << 33] {
+                muts.push(json!({"kind": "inflate", "nth": nth, "count": count}));
+            }
+        }
+    }
+    for m in muts {
         let bad = mutate(&bytes, &m);
         let (outcome, _, panic) = decode_outcome(&bad, "v1beta0");
         let mut ev = json!({"ev": "Garbage", "kind": m["kind"], "outcome": outcome, "len": bad.len()});
